@@ -91,3 +91,11 @@ contract(f"{VC}:VBSClusteringManager._encode_cluster_profiles", props=["C18", "C
          shapes={"profiles": PROFILES},
          ensures={"bit_string": "result == bytes([(128 if 'pedestrian' in profiles else 0) + (64 if 'bicyclistAndLightVruVehicle' in profiles else 0) + (32 if 'motorcyclist' in profiles else 0) + (16 if 'animal' in profiles else 0)])",
                   "one_octet": "len(result) == 1"})
+
+contract(f"{VC}:VBSClusteringManager.get_cluster_operation_container", shapes={"self": MGR},
+         props=["C18", "C11"], mode="int", spec_module="spec_vbs", float_as_real=True, frame_check=False, requires=["inv(self)"],
+         inline=[f"{VC}:VBSClusteringManager._standalone_operation_container", f"{VC}:VBSClusteringManager._passive_operation_container",
+                 f"{VC}:VBSClusteringManager._leader_operation_container"],
+         ensures={"join_time_inside_delta_time_quarter_second": "implies(result is not None and 'clusterJoinInfo' in result, 1 <= result['clusterJoinInfo']['joinTime'] <= 255)",
+                  "breakup_time_inside_delta_time_quarter_second": "implies(result is not None and 'clusterBreakupInfo' in result, 1 <= result['clusterBreakupInfo']['breakupTime'] <= 255)"},
+         cover=["result is not None and 'clusterJoinInfo' in result", "result is not None and 'clusterBreakupInfo' in result"])
